@@ -147,7 +147,8 @@ reg('C01', engine='llsym',
     text='Bounded symbolic execution of the real struct/union completion code on field sequences whose sizes, '
          'alignments, bit widths and named/anonymous flags are symbolic, proved equal (offsets, bit positions, '
          'sizeof, alignof, var-array flag, no rejection) to an independent statement of the SysV/GCC layout rule '
-         'that is itself validated against gcc on random structs at every run.',
+         'that is itself validated against gcc on random structs at every run; members of a nested *anonymous* struct/union are '
+         'copied into the enclosing aggregate with their offset shifted and their bit position, width and ctor flag kept.',
     note='Trusted: clang IR, llsym semantics, the reference model (validated vs gcc), CPython contracts. Field count '
          '<= 3 (4); nesting represented inductively; cdef-to-backend plumbing only through replays.',
     technique='differential symbolic execution of LLVM IR against a reference model, SMT (z3 bit-vectors)')
@@ -156,7 +157,8 @@ reg('C10', engine='pysym + llsym',
     text='The real EnumType.build_baseinttype and Parser._build_enum_type run on symbolic enumerator values (proxy '
          'ints, solver-guided forking) against GCC\'s underlying-type rule and C\'s increment rule; the real '
          'b_new_enum_type/convert_cdata_to_enum_string run in llsym with an abstract dict: ffi.string gives the first '
-         'declared name with that value or the decimal number.',
+         'declared name with that value or the decimal number.; API mode: the _cffi_prim_int/_cffi_prim_float macros map every (size, sign) to the fixed-width type of that size and sign; '
+         'out-of-line ABI mode: every enumerator value in [-2**63, 2**64) comes back exactly through the module\'s _globals unpacking.',
     note='Trusted: pysym proxies, llsym semantics, GCC\'s enum rule as stated, abstract dict model. API-mode enum '
          'size/sign (taken from the compiler) not covered.',
     technique='symbolic execution via proxy values (Python) and of LLVM IR (C), SMT (z3)')
@@ -174,7 +176,8 @@ reg('C20', engine='llsym',
     text='Bounded symbolic execution of the real ffi.new path: the size arithmetic (add_varsize_length, ffi.new("T[]", n)) '
          'accepts exactly the sizes that fit Py_ssize_t and never records a wrapped value; fresh memory is zero; '
          'ffi.new(T, init) succeeds iff ffi.new(T) + assignment does and leaves the same bytes, for list initializers, a '
-         'struct ending in a flexible array and a nested var-sized struct given as cdata.',
+         'struct ending in a flexible array and a nested var-sized struct given as cdata; dict initializers set exactly the named '
+         'fields (unknown key: KeyError), sequences fill leading fields in order, a union sequence sets its first member only, the rest stays zero.',
     note='Trusted: clang IR, llsym semantics, calloc/malloc contracts, CPython contracts. Partial: small initializers, '
          'two struct shapes; dict initializers, unions and custom allocators not covered.',
     technique='symbolic execution of LLVM IR, SMT (z3 bit-vectors)')
@@ -221,7 +224,9 @@ reg('C11', engine='pysym + llsym',
     text='Partial: the serialisation codec of out-of-line ABI modules. The Python encoder (byte expressions taken from the '
          'AST of format_four_bytes, as_python_bytes on symbolic op/arg) and the C decoder (cdl_4bytes/cdl_opcode, IR) are '
          'proved inverse for every opcode the generator can emit; integer constants survive ffiobj_init -> '
-         '_cdl_realize_global_int -> realize_global_int for every Python int in [-2**63, 2**64).',
+         '_cdl_realize_global_int -> realize_global_int for every Python int in [-2**63, 2**64); the struct/union, field, enum and '
+         'typename literals produced by the real encoder classes of recompiler.py (4-byte fields symbolic) are decoded by the real '
+         'ffiobj_init into exactly the same numbers, names and flags.',
     note='Trusted: pysym/llsym semantics, CPython contracts. Whole-module equivalence (types, functions, globals through '
          'the import machinery) is NOT decided.',
     technique='symbolic execution via proxy values (Python AST) and of LLVM IR (C), SMT (z3 bit-vectors)')
@@ -250,7 +255,8 @@ reg('C13', engine='llsym',
          'argument: offsets aligned, areas disjoint and inside exchange_size, second pass writes exactly the counted bytes; '
          '(c) wrappers generated at run time by the working tree\'s Recompiler for a family of identity functions are '
          'compiled to IR and executed together with the backend IR: the C function receives exactly the value the libffi '
-         'path\'s convert_from_object stores for the same Python object, same exceptions, errno bracket in place.',
+         'path\'s convert_from_object stores for the same Python object, same exceptions, errno bracket in place; in two multi-argument wrappers every argument reaches its own parameter; a struct argument with '
+         '(multi-dimensional) array fields is flattened exactly into libffi\'s elements[].',
     note='Trusted: clang IR of backend and generated code, llsym semantics, CPython contracts. libffi itself, struct-by-value, '
          'variadic calls, pointer/char arguments and dlopen paths are not covered.',
     technique='symbolic execution of LLVM IR (backend + run-time generated module), differential against the libffi-path kernel, SMT (z3)')
